@@ -31,7 +31,9 @@ uint32_t x__ZN4Poco3Net12StreamSocket12receiveBytesEPvii(struct S_class_2ePoco_3
   vf_fresh = (k == n);
 #endif
   for (uint32_t i = 0; i < VF_CHUNK_MAX && i < n; i++)   if (i < k) buf[i] = vf_stream[vf_stream_pos + i];   /* (i < n folds the loop for constant 1-byte requests) */
+#ifndef VF_NO_CHUNKREC
   if (vf_recv_calls <= VF_MAXCALLS) cx_chunk[vf_recv_calls - 1] = (uint8_t)k;
+#endif
   vf_stream_pos += k; return k;
 }
 static uint32_t vf_errno; uint32_t *x___errno_location(void) { return &vf_errno; }
